@@ -45,14 +45,20 @@ package modeling
 //@ fn (*Component[S, T, R]).specHash
 //@   property C07
 //@   requires c != nil
+//@   witness failed bool = result1 != nil
 //@   label C07.spechash.error.empty
 //@   ensures result1 != nil ==> result0 == ""
+//@   label C07.spechash.failed.witness
+//@   ensures failed <==> result1 != nil
 //@   assigns jsonEncTyp, jsonEncVal, jsonEncCount
 //@ fn (*EventDrivenComponent[S, T, R]).specHash
 //@   property C07
 //@   requires c != nil
+//@   witness failed bool = result1 != nil
 //@   label C07.spechash.error.empty
 //@   ensures result1 != nil ==> result0 == ""
+//@   label C07.spechash.failed.witness
+//@   ensures failed <==> result1 != nil
 //@   assigns jsonEncTyp, jsonEncVal, jsonEncCount
 
 // ---- Component.LoadCheckpoint ----
@@ -63,7 +69,9 @@ package modeling
 //@   property C07
 //@   requires c != nil
 //@   witness gotHash int = got     // `got` is declared after the first return: a witness tolerates the unbound path
-//@   witness hashFailed bool = err != nil && jsonEncCount == old(jsonEncCount) + 1   // specHash (the only Marshal so far) failed
+//@   witness hashErr bool = specHash_failed   // unbound (arbitrary) on the path that returns before specHash is called
+//@   label C07.comp.spechash.unhashable
+//@   ensures hashErr ==> result != nil
 //@   label C07.comp.spechash.mismatch
 //@   ensures gotHash != dto.SpecHash ==> result != nil
 //@   label C07.comp.error.unchanged
@@ -79,6 +87,9 @@ package modeling
 //@   property C07
 //@   requires c != nil
 //@   witness gotHash int = got
+//@   witness hashErr bool = specHash_failed
+//@   label C07.ed.spechash.unhashable
+//@   ensures hashErr ==> result != nil
 //@   label C07.ed.spechash.mismatch
 //@   ensures gotHash != dto.SpecHash ==> result != nil
 //@   label C07.ed.error.unchanged
